@@ -348,6 +348,18 @@ def gen_using(rng, exhaustive_fmt=None):
     return [("using", dev, fmt, values, rng.random() < 0.25)]
 
 
+def gen_using_history(rng):
+    """Several PRINT USING statements (value counts that do not match the field counts, so that a statement
+    ends in the middle of its format), interleaved with plain PRINTs over the devices."""
+    out = []
+    for _ in range(rng.randrange(2, 6)):
+        if rng.random() < 0.3:
+            out += gen_history(rng)[:2]
+        else:
+            out += gen_using(rng)
+    return out
+
+
 def build_program(stmts):
     lines = ['OPEN "F1.TXT" FOR OUTPUT AS #1', 'OPEN "F2.TXT" FOR OUTPUT AS #2']
     for s in stmts:
@@ -456,10 +468,13 @@ def shard(ctx):
         run("using_exhaustive", gen_using(lr, fmts[i]))
     n = ctx.params["n"] // ctx.n
     for _ in range(n):
-        if rng.random() < 0.7:
+        x = rng.random()
+        if x < 0.6:
             run("history", gen_history(rng))
-        else:
+        elif x < 0.8:
             run("using", gen_using(rng))
+        else:
+            run("using_history", gen_using_history(rng))
     w.close()
     return r
 
